@@ -655,8 +655,11 @@ impl World {
             let len = self.facts.len();
             self.facts.merge(new_facts);
             if self.facts.len() == len {
-                // the fact budget also covers facts that were loaded rather than derived
-                if self.facts.len() > limits.max_facts as usize {
+                // the fact budget also covers facts that were loaded rather than derived; the
+                // bound is the one applied after a productive iteration, so that a world does
+                // not pass or fail depending on how it came to hold its facts (a world restored
+                // from a snapshot taken after a fact limit error fails again)
+                if self.facts.len() >= limits.max_facts as usize {
                     break Err(Execution::RunLimit(crate::error::RunLimit::TooManyFacts));
                 }
                 break Ok(());
